@@ -6,6 +6,7 @@ import ComposeVerif.Model.SchemaPaths
 import ComposeVerif.Model.InterpTyped
 import ComposeVerif.Gen.Types
 import ComposeVerif.Gen.C08Facts
+import ComposeVerif.Lemmas.InterpCustom
 /-!
 # C08 — interpolation touches only string values and is type-transparent
 
@@ -338,6 +339,25 @@ theorem clone_keeps_interpolation :
     "SkipInterpolation=o.SkipInterpolation" ∈ CV.Gen.c08_cloneCopies ∧ "Interpolate=o.Interpolate" ∈ CV.Gen.c08_cloneCopies := by
   decide
 
+/-! ## 7. the self-decoding numeric types (no cast row, no hook: `DeviceCount`, `NanoCPUs`, `UnitBytes`) -/
+
+/-- on a canonical decimal numeral (digits, no leading zero) the repaired casters read what the decimal readers read -/
+theorem casters_decimal_on_canonical (ds : List Char) (h : CanonicalDecimal ds) :
+    parseInt (String.ofList ds) = parseIntDecimal ds :=
+  parseInt_canonical_decimal ds h
+
+/-- FULL STRENGTH IS FALSE for the self-decoding types (`Neg/C08.lean: devicecount_literal_eq_variable_false`, witness
+    `0440`; findings `typed:yaml-number-syntax:*:devicecount`).  What holds: on canonical decimal numerals
+    `DeviceCount`'s own decoder gives a variable the value the casters — hence (`literal_eq_variable_int`) the YAML
+    literal — give -/
+theorem devicecount_literal_eq_variable_partial (ds : List Char) (h : CanonicalDecimal ds) :
+    decodeDeviceCount (String.ofList ds) = parseInt (String.ofList ds) :=
+  devicecount_canonical_decimal ds h
+
+/-- `count: all` in any ASCII case is -1 -/
+theorem devicecount_all : decodeDeviceCount "all" = some (-1) ∧ decodeDeviceCount "ALL" = some (-1) ∧ decodeDeviceCount "aLl" = some (-1) := by
+  decide
+
 /-! ## non-vacuity -/
 
 private def cfg0 : Cfg :=
@@ -390,6 +410,15 @@ example : interp cfg0 ["services", "a", "scale"] (.str "${V}") = .err (.cast (pa
 /-- `typed_paths_covered` is about 93 leaves, 88 of them in the schema; `decode_time_is_castOnly` has instances -/
 example : projectLeaves.length = 93 ∧ (projectLeaves.filter (fun l => !notInSchema.contains l.path)).length = 88 := by decide
 example : ("Bool", "toBoolean") ∈ CV.Gen.c08_castHook ∧ firstMatch cfg0.table ["services", "a", "init"] = some "toBoolean" := by decide
+
+/-- `casters_decimal_on_canonical`, `devicecount_literal_eq_variable_partial`: `4096` is canonical, `0440` is not -/
+example : CanonicalDecimal "4096".toList := ⟨by decide, '4', "096".toList, rfl, by decide⟩
+example : ¬ CanonicalDecimal "0440".toList := by
+  rintro ⟨_, c, cs, h, h0⟩
+  have hc : c = '0' := by have := congrArg List.head? h; simpa using this.symm
+  have := h0 hc
+  subst this; subst hc
+  revert h; decide
 
 /-- `cast_lookup_perm`: the reversed table is a permutation -/
 example : (CV.Gen.castTable.reverse).Perm CV.Gen.castTable := List.reverse_perm _
